@@ -302,7 +302,10 @@ class QueryCreator(BaseQueryCreator):
                             self.query += "FILTER (?d = <{0}{1}>) .\n".format(odml_uri, i[1])
                         elif attr:
                             re_sub = re.sub(odml_uri, "odml:", attr)
-                            self.query += "?d {0} \"{1}\" .\n".format(re_sub, i[1])
+                            # Dates and numbers are exported as typed literals; the
+                            # query parameter is text, so compare the text of the literal.
+                            self.query += "?d {0} ?d_{2} .\n".format(re_sub, i[1], i[0])
+                            self.query += "FILTER (str(?d_{2}) = \"{1}\") .\n".format(re_sub, i[1], i[0])
 
         if "Sec" in self.q_dict.keys():
             sec_attrs = self.q_dict["Sec"]
@@ -320,7 +323,10 @@ class QueryCreator(BaseQueryCreator):
                             self.query += "FILTER (?s = <{0}{1}>) .\n".format(odml_uri, i[1])
                         elif attr:
                             re_sub = re.sub(odml_uri, "odml:", attr)
-                            self.query += "?s {0} \"{1}\" .\n".format(re_sub, i[1])
+                            # Dates and numbers are exported as typed literals; the
+                            # query parameter is text, so compare the text of the literal.
+                            self.query += "?s {0} ?s_{2} .\n".format(re_sub, i[1], i[0])
+                            self.query += "FILTER (str(?s_{2}) = \"{1}\") .\n".format(re_sub, i[1], i[0])
 
         if "Prop" in self.q_dict.keys():
             prop_attrs = self.q_dict["Prop"]
@@ -344,7 +350,10 @@ class QueryCreator(BaseQueryCreator):
                             self.query += "FILTER (?p = <{0}{1}>) .\n".format(odml_uri, i[1])
                         elif attr:
                             re_sub = re.sub(odml_uri, "odml:", attr)
-                            self.query += "?p {0} \"{1}\" .\n".format(re_sub, i[1])
+                            # Dates and numbers are exported as typed literals; the
+                            # query parameter is text, so compare the text of the literal.
+                            self.query += "?p {0} ?p_{2} .\n".format(re_sub, i[1], i[0])
+                            self.query += "FILTER (str(?p_{2}) = \"{1}\") .\n".format(re_sub, i[1], i[0])
 
         self.query += "}\n"
         return self.query
